@@ -73,7 +73,11 @@ def op1(ctx):
             # the size test in either spelling: satsub(file_size, offset) < prefix  /  prefix > satsub(file_size, offset)
             size_sw = [(x, 0) for x, c in res.conds.items() if tag(c) == "cmp" and ((c[1] == "Lt" and tag(c[2]) == "satsub") or (c[1] == "Gt" and tag(c[3]) == "satsub"))]
             size_sw += [(x, 1) for x, c in res.conds.items() if tag(c) == "cmp" and ((c[1] == "Ge" and tag(c[2]) == "satsub") or (c[1] == "Le" and tag(c[3]) == "satsub"))]
-            cn = [i for i, l in enumerate(b.locals) if l["name"] == "create_new"]
+            # the flag is the bool that Options::open returned together with the file (whatever the local is called)
+            cn = [i for i, l in enumerate(b.locals) if l["ty"] == "bool" and l["name"] and any(
+                  "open(" in show(env.get(i)) for env in list(res.env_out.values())[:40] if env.get(i) is not None)]
+            if not cn:
+                cn = [i for i, l in enumerate(b.locals) if l["name"] == "create_new"]
             if size_sw and cn:
                 x, passv = size_sw[0]
                 t = b.blocks[x]["term"]
